@@ -321,7 +321,7 @@ func NewCacheFile(cachePath string) (*cacheFile, error) {
 	}
 
 	// Keep the file pointer at the end of the file.
-	if _, err := file.Seek(0, io.SeekEnd); err != nil {
+	if _, err := res.file.Seek(0, io.SeekEnd); err != nil {
 		return nil, fmt.Errorf("failed to seek to end of file: %w", err)
 	}
 
@@ -554,14 +554,30 @@ func (cachefile *cacheFile) DataForSearch(streamID uint64) ([2][]byte, [][2]int,
 
 func (cachefile *cacheFile) truncateFile() error {
 	// cleanup the file by skipping all old streams
-	if _, err := cachefile.file.Seek(cachefile.freeStart, io.SeekStart); err != nil {
-		return fmt.Errorf("failed to seek to free start: %w", err)
+	// The remaining streams are written to a new file which then replaces the
+	// old one. Moving them within the file would leave a file that can't be
+	// parsed if the process dies before the cleanup is finished.
+	tmpPath := cachefile.cachePath + ".tmp"
+	tmpFile, err := os.OpenFile(tmpPath, os.O_CREATE|os.O_RDWR|os.O_TRUNC, 0644)
+	if err != nil {
+		return fmt.Errorf("failed to create temporary cache file: %w", err)
 	}
+	keepTmpFile := false
+	defer func() {
+		if !keepTmpFile {
+			_ = tmpFile.Close()
+			_ = os.Remove(tmpPath)
+		}
+	}()
 
+	writer := bufio.NewWriter(tmpFile)
+	if _, err := io.Copy(writer, io.NewSectionReader(cachefile.file, 0, cachefile.freeStart)); err != nil {
+		return fmt.Errorf("failed to copy start of file: %w", err)
+	}
 	reader := bufio.NewReader(io.NewSectionReader(cachefile.file, cachefile.freeStart, cachefile.fileSize-cachefile.freeStart))
-	writer := bufio.NewWriter(cachefile.file)
 
 	newFilesize := cachefile.freeStart
+	newOffsets := map[uint64]int64{}
 	header := converterStreamSection{}
 	for oldFileOffset := cachefile.freeStart; ; {
 		if err := binary.Read(reader, binary.LittleEndian, &header); err != nil {
@@ -580,8 +596,7 @@ func (cachefile *cacheFile) truncateFile() error {
 				return fmt.Errorf("failed to copy stream data: %w", err)
 			}
 			oldFileOffset += int64(info.size)
-			info.offset = newFilesize + streamHeaderSize
-			cachefile.streamInfos[header.StreamID] = info
+			newOffsets[header.StreamID] = newFilesize + streamHeaderSize
 			newFilesize += streamHeaderSize + int64(info.size)
 			continue
 		}
@@ -595,12 +610,20 @@ func (cachefile *cacheFile) truncateFile() error {
 	if err := writer.Flush(); err != nil {
 		return fmt.Errorf("failed to flush writer: %w", err)
 	}
+	if err := os.Rename(tmpPath, cachefile.cachePath); err != nil {
+		return fmt.Errorf("failed to replace cache file: %w", err)
+	}
+	keepTmpFile = true
+	_ = cachefile.file.Close()
+	cachefile.file = tmpFile
+	for streamID, offset := range newOffsets {
+		info := cachefile.streamInfos[streamID]
+		info.offset = offset
+		cachefile.streamInfos[streamID] = info
+	}
 	cachefile.fileSize = newFilesize
 	if _, err := cachefile.file.Seek(cachefile.fileSize, io.SeekStart); err != nil {
 		return fmt.Errorf("failed to seek to end of file: %w", err)
-	}
-	if err := cachefile.file.Truncate(cachefile.fileSize); err != nil {
-		return fmt.Errorf("failed to truncate file: %w", err)
 	}
 	cachefile.freeSize = 0
 	cachefile.freeStart = cachefile.fileSize
